@@ -188,7 +188,9 @@ def reduceLoop (g : UPoly α) : Nat → UPoly α → Option (UPoly α)
     if ld f ≥ ld g then reduceLoop g fuel (subShiftScale F f g (ld f - ld g) (lc F f))
     else some f
 
-def reduce (g f : UPoly α) : Option (UPoly α) := reduceLoop F g (f.length + 1) f
+/-- (after "fix: unit ideals": a modulus of degree 0 generates the whole ring, everything reduces to zero) -/
+def reduce (g f : UPoly α) : Option (UPoly α) :=
+  if ld g = 0 then some (zero F) else reduceLoop F g (f.length + 1) f
 
 /-- Euclid loop of `Gcd(f, g)` -/
 def gcdLoop : Nat → UPoly α → UPoly α → Option (UPoly α)
